@@ -65,6 +65,14 @@ typedef struct {
 /* section S6: synthetic terms of a chosen magnitude for every shape */
 static int g_force_synth;
 static double g_synth_mag = 1.0;
+static int g_synth_negzero;
+static double complex mkc(double re, double im)
+{
+    double complex z;
+    ((double *)&z)[0] = re;
+    ((double *)&z)[1] = im;
+    return z;
+}
 
 /* returns 0 added (solved), 1 added with synthetic terms, -1 violation */
 static int add_cal(vf_result *r, vnacal_t *vcp, vf_errlog *elog,
@@ -106,9 +114,17 @@ static int add_cal(vf_result *r, vnacal_t *vcp, vf_errlog *elog,
 	    cal->cal_frequency_vector[f] = fgrid[f];
 	for (int t = 0; t < VL_ERROR_TERMS(&vl); ++t)
 	    for (int f = 0; f < sp->nf; ++f)
-		cal->cal_error_term_vector[t][f] =
+	    {
+		double complex v =
 		    vf_cunit(7700 + (uint64_t)sp->type, (uint64_t)(t * 8 + f))
 		    * (t % 3 == 0 ? 1.0 : 1e-3) * g_synth_mag;
+		/* parts that are a negative zero */
+		if (g_synth_negzero)
+		    v = (t + f) % 3 == 0 ? mkc(-0.0, cimag(v)) :
+			(t + f) % 3 == 1 ? mkc(creal(v), -0.0) :
+			t % 2 ? mkc(-0.0, -0.0) : mkc(-0.0, -cimag(v));
+		cal->cal_error_term_vector[t][f] = v;
+	    }
 	cal->cal_z0 = z0_alpha[sp->z0i];
 	if (_vnacal_add_calibration_common("c07", vcp, cal, name) == -1) {
 	    _vnacal_calibration_free(cal);
@@ -253,8 +269,8 @@ static double prec_tol(int p)
 
 static bool near_rel(double a, double b, double tol)
 {
-    if (tol == 0.0)
-	return a == b;
+    if (tol == 0.0)	/* bit-exact: the sign of a zero counts */
+	return memcmp(&a, &b, sizeof(a)) == 0;
     return fabs(a - b) <= tol * fabs(a);
 }
 
@@ -606,7 +622,7 @@ static long n_s5(void) { return 1 + N_E12SHAPES * 3 * 2 + 8; }
 /* S6: error terms at the ends of the double range (subnormal, smallest
    normal, very small, very large) x 8 types x 3 data precisions */
 static const double s6_mag[4] = { 3e-310, 2.5e-308, 1e-300, 1e+300 };
-static long n_s6(void) { return 4L * 8 * 3; }
+static long n_s6(void) { return 5L * 8 * 3; }
 
 static long count(int tier)
 {
@@ -1131,11 +1147,14 @@ static void run(int tier, long idx, vf_result *r)
 	int t = vf_digit(&idx, 8);
 	spec_t sp = { types[t], 2, 2, 2, 1, 2 };
 	g_force_synth = 1;
-	g_synth_mag = s6_mag[idx];
-	run_single(r, &sp, 0, dp, g_synth_mag < 1e-307 ? "S6 subnormal "
+	g_synth_mag = idx < 4 ? s6_mag[idx] : 1.0;
+	g_synth_negzero = idx == 4;
+	run_single(r, &sp, 0, dp, idx == 4 ? "S6 terms with negative zeros" :
+		g_synth_mag < 1e-307 ? "S6 subnormal "
 		"terms" : g_synth_mag < 1.0 ? "S6 tiny terms" :
 		"S6 huge terms");
 	g_force_synth = 0;
+	g_synth_negzero = 0;
 	g_synth_mag = 1.0;
     }
 }
